@@ -9,6 +9,16 @@ def cmd(pid, tier):
 
 # id -> (category, engine, technique, level text, level note, design ref)
 CHECKS = {
+ "C13": ("model_checking", "HIST",
+   "explicit-state BFS over operation histories of the real RpcModule, canonical state keys, BTreeMap reference model compared on every transition",
+   "Every transition re-executes history++[op] on a fresh real RpcModule (plus kept clones) and compares Ok/Err of the op, method_names() and the dispatch of calls to every name with a map reference; states are deduplicated by name->(kind, handler identity up to renaming); BFS to depth 7 (thorough 10) over a 49-op menu (sync/async/blocking/subscription/raw subscription/alias/merge/remove/clone/continue-from-clone over names a,b,c).",
+   "Handler identity is observed through returned tags; unsubscribe handlers are identified by kind only; names beyond {a,b,c} and merges beyond the 8 prepared modules are not covered.",
+   "DESIGN.md §6 C13"),
+ "C14": ("exploration", "ENUM",
+   "bounded-exhaustive enumeration of (allow-list, Host header, header multiplicity, request-target) against an independent authority matcher",
+   "All 1- and 2-entry allow-lists over 14 patterns x 3.5k Host header strings (scheme x host x userinfo x port forms + control/non-ASCII) x multiplicity {0,1,2} x 4 request-target forms through the real HostFilterLayer over a counting probe service; soundness (admitted => some entry matches) on every case, completeness for single-entry lists and plain authorities.",
+   "The reference reads the request-target authority both with and without its scheme (statement is silent); completeness is only demanded where the statement gives it.",
+   "DESIGN.md §6 C14"),
  "C15": ("exploration", "ENUM",
    "bounded-exhaustive enumeration of inputs (all 2^32 error codes; all short id strings; all response member sequences) against a reference predicate",
    "Exhaustive within stated alphabets: every i32 code, every id string of length <=3 (thorough 4) over a 20-symbol adversarial alphabet, every sequence of <=5 (thorough 6) response members out of 16; round-trip identity and a reference acceptor are evaluated on every case. Right level because the property is a pure function of finite-alphabet inputs, so enumeration decides it within the bound.",
